@@ -190,6 +190,7 @@ func runC17(c *an.Ctx) {
 	c17exits(c, isSet)
 	c17argExits(c, argIsSet)
 	c17steps(c, isSet)
+	mapKeyRule(c, "C17.steps")
 	c17kinds(c)
 	c17lookup(c)
 }
